@@ -12,6 +12,9 @@ decorated objective.  Round 3: the log protocol is also simulated under reconfig
 Step finalizes a run it ended (shared with C05.j).
 Round 4: no solver class keeps per-call settings (callback, disp) in a class-
 level container that is updated in place.
+Round 5 (hunt): path rule over Step: whenever Step returns with the solver
+possibly terminated, Finalize() has run since the last _Step - also when the
+solver is found terminated on entry (repair 9efed1e).
 NOT decided: call counts per iteration, equality of monitor
 contents with the real calls under non-default maps, monotonicity under
 non-idempotent constraints.
@@ -632,3 +635,84 @@ def one_time_inputs_do_not_outlive_their_call(ctx):
         n = sum(1 for k in classes if '_process_inputs' in k.methods)
         ctx.ok('_process_inputs#per-call', '%d solver classes: no class-level container is updated in place (%d _process_inputs overrides)' % (len(classes), n),
                ctx.func(AS + '._process_inputs'), ctx.func(AS + '._process_inputs').node)
+
+
+@rule('C04.o', min_instances=1)
+def a_solver_found_stopped_is_finalized(ctx):
+    """whenever Step returns with the solver (possibly) terminated, Finalize() has run since the last iteration - also when Step finds the solver ALREADY terminated on entry (a limit or a termination set between two Steps) and takes no step: a solver that logs its latest iteration lazily (Powell) writes that record only in Finalize, so the monitor of such a stopped run would otherwise lack its last generation. Path analysis of AbstractSolver.Step over the facts {terminated?, finalized since the last _Step, what the returned message is bound to}"""
+    f = ctx.func(AS + '.Step')
+    sn = selfname_of(f)
+
+    def term_call(n):
+        return isinstance(n, ast.Call) and self_call(n, 'Terminated', sn)
+
+    def has_term(n):
+        return any(term_call(x) for x in ast.walk(n))
+
+    def rel(n):
+        return isinstance(n, ast.Return) or (isinstance(n, ast.Call) and (self_call(n, 'Terminated', sn) or self_call(n, 'Finalize', sn) or self_call(n, '_Step', sn))) or \
+            (isinstance(n, ast.Assign) and all(isinstance(t_, ast.Name) for t_ in n.targets))
+    paths = [p for p in enumerate_paths(f.node, relevant=rel, unroll=(0, 1)) if p.exit != 'raise']
+    ctx.stats['paths_enumerated'] += len(paths)
+    ctx.need(paths, 'Step has no returning path')
+    checked = 0
+    for p in paths:
+        term = None           # None unknown / True / False : is the solver terminated (since the last _Step)
+        finalized = False
+        linked = {}           # local -> 'term' (truthy iff terminated) | 'none' (known None)
+        feasible, unknown = True, None
+        for e in p.events:
+            if e[0] == 'cond':
+                t_, tr = e[1], e[2]
+                while isinstance(t_, ast.UnaryOp) and isinstance(t_.op, ast.Not):
+                    t_, tr = t_.operand, not tr
+                if term_call(t_):
+                    val = tr
+                elif isinstance(t_, ast.Name) and t_.id in linked:
+                    val = tr if linked[t_.id] == 'term' else ('infeasible' if tr else None)
+                elif isinstance(t_, ast.Compare) and len(t_.ops) == 1 and isinstance(t_.ops[0], (ast.Is, ast.IsNot)) and isinstance(t_.left, ast.Name) and t_.left.id in linked \
+                        and isinstance(t_.comparators[0], ast.Constant) and t_.comparators[0].value is None:
+                    isnone = tr if isinstance(t_.ops[0], ast.Is) else not tr
+                    val = (not isnone) if linked[t_.left.id] == 'term' else (None if isnone else 'infeasible')
+                else:
+                    if has_term(t_) or any(isinstance(x, ast.Name) and x.id in linked for x in ast.walk(t_)):
+                        unknown = t_
+                    continue
+                if val == 'infeasible' or (val is not None and term is not None and val != term):
+                    feasible = False
+                    break
+                if val is not None:
+                    term = val
+            elif e[0] in ('stmt', 'partial'):
+                st = e[1]
+                if calls_where(st, lambda c: self_call(c, '_Step', sn), include_lambda=False):
+                    term, finalized = None, False
+                    linked = {k: v for k, v in linked.items() if v != 'term'}
+                if calls_where(st, lambda c: self_call(c, 'Finalize', sn), include_lambda=False):
+                    finalized = True
+                if isinstance(st, ast.Assign) and all(isinstance(x, ast.Name) for x in st.targets):
+                    v = st.value
+                    core = v.values[0] if isinstance(v, ast.BoolOp) and isinstance(v.op, ast.Or) and len(v.values) == 2 and isinstance(v.values[1], ast.Constant) and v.values[1].value is None else v
+                    for x in st.targets:
+                        if term_call(core):
+                            linked[x.id] = 'term'
+                        elif isinstance(v, ast.Constant) and v.value is None:
+                            linked[x.id] = 'none'
+                        else:
+                            linked.pop(x.id, None)
+                            if has_term(v):
+                                unknown = v
+        if not feasible or p.exit != 'return':
+            if feasible and p.exit == 'fall':
+                pass
+            else:
+                continue
+        checked += 1
+        if term is False or finalized:
+            continue
+        ctx.need(unknown is None, 'Step: cannot decide the termination state on path %s (unrecognised use of Terminated(): %s)' % (p.describe(6), unparse(unknown)[:60] if unknown is not None else ''))
+        ctx.bad('AbstractSolver.Step#stopped-without-Finalize', 'Step can return with the solver terminated and Finalize() not called since the last iteration (path %s): a solver found already stopped on entry is never finalized, '
+                'so a lazily logging solver (Powell) never writes its last generation to the step monitor' % p.describe(6), f, p.exit_node if p.exit_node is not None else f.node)
+        return
+    ctx.need(checked >= 2, 'Step: expected >= 2 feasible returning paths, found %d' % checked)
+    ctx.ok('AbstractSolver.Step#stopped-is-finalized', '%d feasible returning paths: terminated => Finalize() since the last _Step' % checked, f, f.node)
